@@ -23,6 +23,8 @@ def run(ctx):
     import prost_map
     prost_map.skip_default(rep, 'R05.c', ctx)
     pr.wrappers(rep, 'R05.w', prog, cg)
+    pr.numeric_decode_is_total(rep, 'R05.n', prog, cg)
+    pr.length_delimited_framing(rep, 'R05.f', prog, cg)
     # no decoder guard is stricter than the operation needs (a value / unknown field ending exactly at the end of the input is complete)
     import audit
     import scopes
